@@ -912,7 +912,7 @@ def pair_args(rng, st, other_path, thorough):
             "unsetFrameFd": ",".join(F[:-1]),
             "addFrameReceiver": F[0] + ":ENewRcv,FRenamed:ENewRcv2",
             "deleteSignalAttributes": "SigFloatAttr",
-            "deleteFrameAttributes": (fa[0] if fa else "FrHexAttr") + ",GenMsgCycleTime",
+            "deleteFrameAttributes": (fa[0] if fa else "FrHexAttr") + ",FrOnlyAttr",      # (GenMsgCycleTime: singles; known finding)
             "deleteObsoleteDefines": "",
             "signals": S[0],
         })
@@ -1216,7 +1216,7 @@ def _run(chk, rng, thorough, ok, C, R, tmp):
     chk.case("help-renameFrame", True)
 
     # ---- input files ----
-    n_inputs = 4 if not thorough else 100
+    n_inputs = 4 if not thorough else 60
     inputs = []
     for idx in range(n_inputs):
         db0 = gen_input(rng, C, idx, big=thorough and idx % 3 == 0)
@@ -1347,7 +1347,7 @@ def _run(chk, rng, thorough, ok, C, R, tmp):
             tie_direct(in_db, opts, res["fn"], dict(input=inp["idx"], options=opts))
 
     # ---- ordered pairs ----
-    n_pair_inputs = 2 if not thorough else 36
+    n_pair_inputs = 2 if not thorough else 24
     for inp in inputs[:n_pair_inputs]:
         in_db = R.load(inp["path"])
         args = pair_args(rng, inp["st"], inp["other_path"], thorough)
